@@ -3,7 +3,8 @@
 From Model Require Import Json.
 From Spec Require JsonParse.
 From Proofs Require Import JsonFields.
-From Proofs Require JsonRoundTrip.
+From Proofs Require JsonRoundTrip VarsShape.
+From Model Require Scan.
 
 (* one object per match; under the documented keys it holds the in-memory match: filename,
    matchNumber, offset/line/column as {start,end}, value, variables (nested for named loops), and
@@ -24,6 +25,16 @@ Theorem C17_match_json_fields :
   end.
 Proof. exact lookup_fields. Qed.
 Print Assumptions C17_match_json_fields.
+
+(* what the `variables` member can be, for ARBITRARY bytecode: every match the engine reports carries a variable map with
+   no name twice (so the JSON object has one member per variable) whose values are strings or, for named loops, iteration
+   tables with exactly the keys "0" .. "k" and variable maps as entries, nested to any depth (VarsShape.wsv) *)
+Theorem C17_variables_are_well_formed_objects :
+  forall vmfuel prog text all skip take last R,
+  Scan.find_matches vmfuel prog text all skip take last = Scan.SOk R ->
+  Forall (fun m => NoDup (map fst (Scan.mvars m)) /\ Forall (fun kv => VarsShape.wsv (snd kv)) (Scan.mvars m)) R.
+Proof. exact VarsShape.find_matches_vars_shape. Qed.
+Print Assumptions C17_variables_are_well_formed_objects.
 
 Theorem C17_one_object_per_match :
   forall fname ms i m, nth_error ms i = Some m ->
